@@ -204,6 +204,54 @@ def run_mask(key):
               transitions=trans)
 
 
+
+def run_mask_dtypes(key):
+    """the same binary masks in other real dtypes (single/half precision, integers)."""
+    pa = _pa()
+    K, F, T, idx, dt = key['K'], key['F'], key['T'], key['idx'], key['dtype']
+    mask64 = _mask01(K, F, T, idx)
+    mask = mask64.astype(np.dtype(dt))
+    mask.setflags(write=False)
+    refs = REF_MASK_IDS[(K, F, T)][:2]
+    evals = 0
+    outs = []
+    for metric in METRICS:
+        for alg in ALGS:
+            todo = [('Greedy', pa.GreedyPermutationAlignment(similarity_metric=metric, algorithm=alg), None)]
+            for rid in refs:
+                todo.append(('Oracle', pa.OraclePermutationAlignment(similarity_metric=metric, algorithm=alg),
+                             _mask01(K, F, T, rid).astype(np.dtype(dt))))
+            for (start, width, shift) in ((0, F, 1), (1, 1, 1), (0, 2, 1)):
+                todo.append((f'DHTV({start},{width},{shift})', pa.DHTVPermutationAlignment(
+                    stft_size=2 * (F - 1), segment_start=start, segment_width=width,
+                    segment_shift=shift, main_iterations=3, sub_iterations=2,
+                    similarity_metric=metric, algorithm=alg), None))
+            for name, al, ref_mask in todo:
+                what = f'{name}({metric},{alg},{dt})'
+                try:
+                    m = al.calculate_mapping(mask) if ref_mask is None else \
+                        al.calculate_mapping(mask, ref_mask)
+                except Exception as e:  # noqa
+                    return viol(f'{what}.calculate_mapping raised {e!r}')
+                bad = _check_mapping(pa, mask, m, what)
+                if bad:
+                    return bad
+                if metric != 'cos':
+                    if name == 'Greedy':
+                        r, amb = R.greedy_chain(mask64, metric, strict=dt.startswith('float'))
+                    elif name == 'Oracle':
+                        r, amb = R.oracle(mask64, ref_mask.astype(float), metric, alg, strict=dt.startswith('float'))
+                    else:
+                        st, wi, sh = al.segment_start, al.segment_width, al.segment_shift
+                        r, _, amb = R.dhtv(mask64, F, st, wi, sh, 3, 2, metric, alg, strict=dt.startswith('float'))
+                    if not amb and not np.array_equal(m, r):
+                        return viol(f'{what}: mapping differs from the reference procedure',
+                                    np.asarray(m).tolist(), r.tolist())
+                evals += 1
+                outs.append(tol.digest(m))
+    return ok(outcome=str(outs), evals=evals, states=evals, transitions=evals * F)
+
+
 REF_MASK_IDS = {  # vetted small reference masks (bit patterns), per shape
     (2, 3, 2): [0b110011001100 ^ 0b111111000000, 0b101001011010, 0b100110011001, 0b111000000111],
     (3, 3, 1): [0b100010001, 0b110011101, 0b001010100],
@@ -512,6 +560,17 @@ def subchecks(tier, seed):
                     bound=dict(shapes=shapes, alphabet='{0,1}', metrics=list(METRICS),
                                algorithms=list(ALGS), dhtv_plans='every (start,width,shift<=width)'),
                     require_flags=('identity', 'non_identity', 'dhtv_ref_equal')))
+
+    def dtype_cases():
+        for (K, F, T) in ((3, 3, 1), (2, 3, 2)):
+            for dt in ('float32', 'float16', 'int64', 'int8'):
+                for idx in range(2 ** (K * F * T)):
+                    if thorough or K == 3 or idx % 4 == 1:
+                        yield (K, F, T, idx, dt)
+    subs.append(Sub('masks01_other_dtypes', ('K', 'F', 'T', 'idx', 'dtype'), dtype_cases,
+                    run_mask_dtypes, bound=dict(dtypes=['float32', 'float16', 'int64', 'int8'],
+                                                shapes=[[3, 3, 1], [2, 3, 2]]),
+                    exhaustive=thorough))
 
     def oracle_cases():
         for (K, F, T), refs in REF_MASK_IDS.items():
